@@ -29,7 +29,8 @@ def flag_maps(ns, nc, tier):
 def structures(tier, seed):
     if tier == "quick":
         return [("AB_rev", ("grid", 2, 1, 1, 1)), ("ABC_bi", ("graph", "triangle")), ("order3_repeat", ("grid", 2, 2, 1, 4)),
-                ("dimer_source", ("graph", "pair")), ("ABC_bi", ("grid", 3, 1, 1, 1)), ("AB_rev", ("graph", "parallel"))]
+                ("dimer_source", ("graph", "pair")), ("ABC_bi", ("grid", 3, 1, 1, 1)), ("AB_rev", ("graph", "parallel")),
+                ("AB_rev", ("graph", "triangle"))]        # 2 species x 3 nodes: a layout that is NOT square (a transposed flag map is then another map)
     return [p for p in catalogue.pairs("thorough", seed, engine_multigraph=True) if p[0] != "none"]
 
 
